@@ -175,10 +175,11 @@ def heap_model_check(work, tier):
             raise ToolError('MCArcHeap failed: %s' % s['errors'])
         out.append(dict(model='ArcHeap', size=size, max_puts=puts, max_panics=panics, keys=keys, states=s['distinct'], transitions=s['generated'], wall_s=round(wall, 1)))
     # WTinyLFUCache: window RawLRU in front of a SegmentedCache, entries cross the boundary by value; admission verdict nondeterministic
-    for (ws, ca, cb, puts, panics, keys) in ([(1, 1, 1, 3, 1, 3)] if tier == 'quick' else [(1, 1, 1, 4, 1, 3), (1, 2, 1, 4, 0, 3), (2, 1, 1, 4, 0, 3), (1, 1, 2, 4, 0, 3)]):
+    # (the admission contest needs window + main full and one more key: keys > WS + CA + CB and as many puts)
+    for (ws, ca, cb, puts, panics, keys) in ([(1, 1, 1, 3, 1, 3), (1, 1, 1, 4, 0, 4)] if tier == 'quick' else [(1, 1, 1, 4, 1, 4), (1, 2, 1, 5, 0, 5), (2, 1, 1, 5, 0, 5), (1, 1, 2, 5, 0, 5)]):
         cfg = work.path('wtheap-%d-%d-%d-%d-%d.cfg' % (ws, ca, cb, puts, panics))
         vlib.write_cfg(cfg, 'MCSpec', dict(Keys=set(range(1, keys + 1)), WS=ws, CA=ca, CB=cb, MaxPuts=puts, MaxPanics=panics),
-                       invariants=['Safe', 'WF', 'Reachable', 'Accounted', 'Refines'])
+                       invariants=['Safe', 'WF', 'Reachable', 'Accounted', 'Refines', 'RetRefines'])
         o, rc, wall = vlib.run_tlc('MCWTinyHeap', cfg, work.dir, 'wtheap-%d-%d-%d-%d-%d' % (ws, ca, cb, puts, panics), workers=8, xmx='14g', timeout=3600)
         s = vlib.tlc_summary(o)
         if rc != 0 or s['errors'] or s['distinct'] == 0:
